@@ -100,6 +100,80 @@ fn verify_bytes(pk: &[u8], input: &[u8; 32], output: &[u8; 32], proof: &[u8], ta
   Some(Client::verify(&pk, &Point::from(&input[..]), &ev, tag))
 }
 
+// ---------------------------------------------------------------------------
+// Reference verification procedure (the proof is an interoperable protocol
+// message between server and clients: draft-irtf-cfrg-voprf proof verification
+// with the crate's Strobe-based hash). The monitor recomputes the challenge
+//   c' = H(B, M, Z, t2, t3),  t2 = s*G + c*B,  t3 = s*M + c*Z
+// and, when the honest proof does not satisfy it, tries the five transcripts
+// with ONE element dropped: a match there shows that the implementation's
+// challenge does not bind that element (prover and verifier changed together).
+// If nothing matches (labels or hash changed) the monitor has no opinion.
+
+fn strobe_hash64(input: &[u8], label: &str) -> [u8; 64] {
+  use strobe_rs::{SecParam, Strobe};
+  let mut t = Strobe::new(label.as_bytes(), SecParam::B128);
+  t.key(input, false);
+  let mut out = [0u8; 64];
+  t.meta_ad(&(64u32).to_le_bytes(), false);
+  t.prf(&mut out, false);
+  out
+}
+
+fn hash_to_scalar(input: &[u8], label: &str) -> Scalar {
+  Scalar::from_bytes_mod_order_wide(&strobe_hash64(input, label))
+}
+
+fn i2osp2(x: usize) -> [u8; 2] {
+  (x as u16).to_be_bytes()
+}
+
+/// Some(None) = the reference transcript reproduces c; Some(Some(i)) = only the
+/// transcript without element i (0=B,1=M,2=Z,3=t2,4=t3) does; None = no opinion
+fn reference_challenge(pk_point: &RistrettoPoint, input: &RistrettoPoint, output: &RistrettoPoint, c: &Scalar, s: &Scalar) -> Option<Option<usize>> {
+  let ctx = format!("{}-{}-{}", "PPOPRFv1", 0x03, "ristretto255-strobe");
+  let mut seed_t = Vec::new();
+  seed_t.extend_from_slice(&i2osp2(32));
+  seed_t.extend_from_slice(pk_point.compress().as_bytes());
+  seed_t.extend_from_slice(&i2osp2(ctx.len()));
+  seed_t.extend_from_slice(ctx.as_bytes());
+  let seed = strobe_hash64(&seed_t, "Seed");
+  let mut comp = Vec::new();
+  comp.extend_from_slice(&i2osp2(64));
+  comp.extend_from_slice(&seed);
+  comp.extend_from_slice(&i2osp2(0));
+  comp.extend_from_slice(&i2osp2(32));
+  comp.extend_from_slice(output.compress().as_bytes());
+  comp.extend_from_slice(&i2osp2(32));
+  comp.extend_from_slice(input.compress().as_bytes());
+  let d = hash_to_scalar(&comp, "Composite");
+  let m = d * output;
+  let z = d * input;
+  let t2 = s * G + c * pk_point;
+  let t3 = s * m + c * z;
+  let elems = [*pk_point, m, z, t2, t3];
+  let challenge = |skip: Option<usize>| {
+    let mut tr = Vec::new();
+    for (i, e) in elems.iter().enumerate() {
+      if Some(i) == skip {
+        continue;
+      }
+      tr.extend_from_slice(&i2osp2(32));
+      tr.extend_from_slice(e.compress().as_bytes());
+    }
+    hash_to_scalar(&tr, "Challenge")
+  };
+  if &challenge(None) == c {
+    return Some(None);
+  }
+  for i in 0..5 {
+    if &challenge(Some(i)) == c {
+      return Some(Some(i));
+    }
+  }
+  None
+}
+
 struct Nonces {
   t2: Mutex<HashSet<[u8; 32]>>,
   c: Mutex<HashSet<[u8; 32]>>,
@@ -170,6 +244,21 @@ fn case(rec: &mut Rec, ctx: &Ctx, idx: u64, rng: &mut ChaCha20Rng, nonces: &Nonc
       if let (Some(base), Some(tp), Some(cs), Some(ss)) = (base, tp, Option::<Scalar>::from(Scalar::from_canonical_bytes(c)), Option::<Scalar>::from(Scalar::from_canonical_bytes(s))) {
         let t2 = ss * G + cs * (base + tp);
         rec.ev("nonce_commitments_recomputed");
+        // reference verification procedure on the honest proof
+        if let (Some(pin), Some(pout)) = (dec(bp.as_bytes()), dec(ev.output.as_bytes())) {
+          match reference_challenge(&(base + tp), &pin, &pout, &cs, &ss) {
+            Some(None) => rec.ev("reference_verifier_agrees"),
+            Some(Some(i)) => {
+              let name = ["public value B", "composite M", "composite Z", "commitment t2", "commitment t3"][i];
+              rec.violation(
+                &format!("challenge-does-not-bind:{}", ["B", "M", "Z", "t2", "t3"][i]),
+                format!("honest proofs satisfy the verification equation only when the {} is left out of the challenge: the proof does not bind it, so a prover holding the key can prove evaluations it did not compute with that key", name),
+                json!({"proof": hex(&prb), "tag": t, "input": hex(bp.as_bytes()), "output": hex(ev.output.as_bytes()), "pk": hex_short(&pkb)}),
+              );
+            }
+            None => rec.ev("reference_verifier_has_no_opinion"),
+          }
+        }
         if t2 == RistrettoPoint::identity() {
           rec.violation("nonce-zero", "the proof commitment is the identity (nonce 0)".into(), json!({"proof": hex(&prb)}));
         }
